@@ -32,7 +32,7 @@ def bounds(tier):
 
 def goals(tier):
     return ["accepts:" + c.__name__ for c in gen.kit_classes()] + [ "accepted-with-extra-site", "module-kind", "vector-kind", "234r-style", "neighbour-kit-structure-accepted",
-            "mutated-letter-accepted", "registry-pair", "generic-pair", "degenerate-far-side-is-a-site", "degenerate-far-side-is-not-a-site"]
+            "mutated-letter-accepted", "registry-pair", "generic-pair", "degenerate-far-side-is-a-site", "degenerate-far-side-is-not-a-site", "linear-molecule-accepted", "linear-molecule-rejected"]
 
 
 # ---------------------------------------------------------------------------------------------
@@ -139,6 +139,35 @@ def check_pair(st, cls, s, scn, rot_list):
     return acc0
 
 
+def check_linear(st, cls, s, scn, rot_list):
+    """The same texts declared to be LINEAR molecules (plain SeqRecords, every spelling of the annotation): a class that accepts
+    one must report ends that exist in that molecule -- sites, spacers and overhangs read without crossing its ends."""
+    mt = rm.Matcher(cls.structure())
+    vec = gen.is_vector_class(cls)
+    for r in rot_list:
+        sr = rm.rot_right(s, r) if r else s
+        lin = mt.search(sr, False)
+        for pname, rec in gen.linear_presentations(sr, "c4"):
+            sc = dict(scn, rotation=r, presentation=pname)
+            try:
+                e = cls(rec)
+                t = (str(e.overhang_start()), str(e.overhang_end())) if e.is_valid() else None
+            except Exception as ex:
+                st.violation("linear", "raises-" + type(ex).__name__, sc, "values", str(ex)[:200])
+                continue
+            st.scenario("linear-accepted" if t else "linear-rejected", None, nodes=0)
+            st.nontrivial += 1
+            st.goal("linear-molecule-accepted" if t else "linear-molecule-rejected")
+            if t is None:
+                continue
+            if lin is None:
+                st.violation("linear", "accepted-although-the-structure-only-reads-across-the-ends", sc, "rejected", list(t))
+            else:
+                exp = (lin["groups"][3], lin["groups"][1]) if vec else (lin["groups"][1], lin["groups"][3])
+                if (t[0].upper(), t[1].upper()) != (exp[0].upper(), exp[1].upper()):
+                    st.violation("linear", "overhangs-are-not-the-ends-of-the-linear-molecule", sc, list(exp), list(t))
+
+
 # ---------------------------------------------------------------------------------------------
 
 def instances(cls, tier):
@@ -204,6 +233,8 @@ def run_unit(unit, st, tier):
                     st.transitions += 1
                     if acc:
                         check_pair(st, cls, s, scn, [r for r in rots if r])
+                        if mod is None:
+                            check_linear(st, cls, s, dict(scn, family="instances-linear"), rots)
                         st.goal("accepts:" + cls.__name__)
                         if mod and mod.startswith("site"):
                             st.goal("accepted-with-extra-site")
@@ -226,6 +257,8 @@ def run_unit(unit, st, tier):
                 sc = dict(family="generic", enz=enz, cls=cls.__name__, seq=s, lens=lens)
                 if check_pair(st, cls, s, sc, range(len(s))):
                     st.goal("generic-pair")
+                    if lens is None:
+                        check_linear(st, cls, s, dict(sc, family="generic-linear"), range(len(s)))
         st.sample(dict(family="generic", enz=enz, cls="GV_" + enz, rotation=2))
     elif kind == "degenerate":
         unit_degenerate(st, arg[0], arg[1], tier)
@@ -299,4 +332,7 @@ def replay(scn, sub, st):
     cls = gen.class_by_name(scn["cls"])
     gen.prime([cls])
     s = regs.by_id(scn["reg"], scn["id"])["seq"] if fam == "registry" else scn["seq"]
+    if fam.endswith("-linear"):
+        check_linear(st, cls, s, {k: v for k, v in scn.items() if k not in ("rotation", "presentation")}, [scn.get("rotation", 0)])
+        return
     check_pair(st, cls, s, {k: v for k, v in scn.items() if k != "rotation"}, [scn.get("rotation", 0)])
